@@ -74,7 +74,7 @@ func TestRaceAudit(t *testing.T) {
 				}
 				for _, st := range starts {
 					era, s, ttl, st := era, s, ttl, st
-					cases = append(cases, ra.Case{Key: fmt.Sprintf("era=%s|slot=%d|start=%s|ttl=%s", EraNames[era], s, st, ttl), PerG: true, Fn: func(g int) string {
+					cases = append(cases, ra.Case{Key: fmt.Sprintf("validity-interval|era=%s|slot=%d|start=%s|ttl=%s", EraNames[era], s, st, ttl), PerG: true, Fn: func(g int) string {
 						key := NewKey(int64(500+g), 1)
 						in := MkIn(g+1, 0)
 						ls := NewStub()
